@@ -126,6 +126,8 @@ def path(c, job):
             ok = True
         c.prove("C09.type unhinted-empty-sequence-rejected", ok)
         return
+    if kind == "special":
+        return path_special(c, job, mt, ntcore)
     owner, sub, typ = job["owner"], job["subtable"], job["type"]
     default = TYPES[typ]["default"]
     wd = c.boolean("writeDefault")
@@ -234,6 +236,79 @@ def path(c, job):
                     info=dict(step=i, op=op, wrote=k, read=k2))
 
 
+EMPTY_DEFAULTS = [("", None, "other"), ([], Sequence[float], [1.5, 2.5]), ((), Sequence[int], [4]), (b"", None, b"xy"), (0, None, 5), (False, None, True),
+                  (0.0, None, 2.5), ([], Sequence[str], ["a"])]
+
+
+def path_special(c, job, mt, ntcore):
+    what = job["what"]
+    if what == "equal-owners":
+        # owners with value-style equality: two equal (and equally hashing) instances bound under different names
+        class Owner:
+            a = mt.tunable(1.5)
+            n = mt.tunable(3)
+
+            def __init__(self, cfg):
+                self.cfg = cfg
+
+            def __eq__(self, other):
+                return isinstance(other, Owner) and other.cfg == self.cfg
+
+            def __hash__(self):
+                return hash(self.cfg)
+
+        o1, o2 = Owner("same"), Owner("same")
+        order = c.choose("setup_order", 2)
+        for o, n in ((o1, "n1"), (o2, "n2")) if order == 0 else ((o2, "n2"), (o1, "n1")):
+            mt.setup_tunables(o, n, "components")
+        v1, v2 = c.real("v1", -100, 100), c.real("v2", -100, 100)
+        m = {"/components/n1/a": 1.5, "/components/n2/a": 1.5}
+        c.reach("equal-owners")
+        for i in range(job["K"]):
+            sel = c.choose(f"op{i}", 4)
+            k = "/components/n1/a" if sel % 2 == 0 else "/components/n2/a"
+            v = c.real(f"w{i}", -1000, 1000)
+            if sel < 2:
+                setattr(o1 if sel % 2 == 0 else o2, "a", v)
+                c.prove("C09.rw nt-side-sees-python-write", _same(ntcore.STORE.values.get(k), v), info=dict(key=k, equal_owners=True))
+            else:
+                ntcore.NetworkTableInstance.getDefault().getEntry(k).set(v)
+            m[k] = v
+            for o, k2 in ((o1, "/components/n1/a"), (o2, "/components/n2/a")):
+                try:
+                    got = o.a
+                except Exception as e:
+                    got = f"<read failed: {type(e).__name__}>"
+                c.prove("C09.rw read-returns-latest-from-either-side", _same(got, m[k2]), info=dict(step=i, read=k2, equal_owners=True))
+        c.prove("C09.key no-other-topics", set(ntcore.STORE.values) == {f"/components/{n}/{a}" for n in ("n1", "n2") for a in ("a", "n")},
+                info=dict(got=sorted(ntcore.STORE.values)))
+        return
+    # falsy / empty defaults: the writeDefault rule does not depend on the value of the default
+    i = c.choose("default", len(EMPTY_DEFAULTS))
+    default, hint, pre = EMPTY_DEFAULTS[i]
+    wd = bool(c.boolean("writeDefault"))
+    explicit = c.choose("writeDefault_passed", 2)
+
+    class Owner:
+        if hint is None:
+            t = mt.tunable(default, writeDefault=wd) if explicit or not wd else mt.tunable(default)
+        else:
+            t = mt.tunable[hint](default, writeDefault=wd) if explicit or not wd else mt.tunable[hint](default)
+
+    k = "/components/e/t"
+    ntcore.STORE.values[k] = pre
+    o = Owner()
+    mt.setup_tunables(o, "e", "components")
+    c.reach("falsy-default-with-existing-value")
+    want = default if wd else pre
+    try:
+        got = o.t
+        ok = (list(got) == list(want)) if isinstance(want, (list, tuple)) else (got == want and type(got) is type(want))
+    except Exception as e:
+        got, ok = repr(e)[:80], False
+    c.prove("C09.init writeDefault-rule", ok, info=dict(default=repr(default), existing=repr(pre), writeDefault=wd, got=repr(got)[:60]))
+
+
 class C09(Spec):
     id = "C09"
     design_ref = "DESIGN.md §7 C09"
@@ -255,13 +330,14 @@ class C09(Spec):
         j += [dict(kind="rw", owner=o, subtable=s, type=t, K=K) for o, s, t in combos]
         j += [dict(kind="rw", owner="components", subtable=None, type="int", K=1, redefine=True),
               dict(kind="rw", owner="robot", subtable="s", type="float", K=1, redefine=True)]
+        j += [dict(kind="special", what="equal-owners", K=3 if tier == "quick" else 5), dict(kind="special", what="falsy-default")]
         return j
 
     def bounds(self, tier):
         return dict(K=4 if tier == "quick" else 5, jobs=self.jobs(tier), values="symbolic real/int/bool per write; strings concrete tokens")
 
     def reach_required(self, tier):
-        return ["type-table", "preexisting-value", "existing-preserved", "existing-overwritten", "py-write", "nt-write", "redefined-tunable"]
+        return ["type-table", "preexisting-value", "existing-preserved", "existing-overwritten", "py-write", "nt-write", "redefined-tunable", "equal-owners", "falsy-default-with-existing-value"]
 
     def extra(self, tier, seed):
         from real.run import nt_contract
